@@ -53,7 +53,7 @@ CLASSES = {
 CLASS_NAMES = list(CLASSES)
 
 EXTRAS = ["named_ineq", "user_eq", "lmi_sym", "lmi_nonsym", "lmi_two", "lmi_unsent", "partition1", "partition2",
-          "fn_constraint", "fn_lmi", "const_metric", "two_metrics", "second_function", "dup_eval"]
+          "fn_constraint", "fn_lmi", "fn_lmi_two", "noise", "const_metric", "two_metrics", "second_function", "dup_eval"]
 
 
 class Ctx(object):
@@ -287,6 +287,23 @@ def build(spec):
             f.add_psd_matrix([[d0 + 1, e], [e, 1]])
             c.lmis["fn_lmi"] = f.list_of_psd[-1]
             p.add_constraint(e <= 2)
+        elif ex == "fn_lmi_two":
+            # two LMIs (with constant entries) attached to the same function
+            e, e4 = Expression(), Expression()
+            c.exprs["e_fn"], c.exprs["e_fn4"] = e, e4
+            f.add_psd_matrix([[d0 + 1, e], [e, 1]])
+            f.add_psd_matrix([[dn + 2, e4, 0], [e4, 3, 1], [0, 1, 1]])
+            c.lmis["fn_lmi_a"], c.lmis["fn_lmi_b"] = f.list_of_psd[-2], f.list_of_psd[-1]
+            p.add_constraint(e <= 2)
+            p.set_performance_metric(m + e4)
+        elif ex == "noise":
+            # a small additive perturbation orthogonal to everything else: a genuinely small non-zero eigenvalue
+            z = Point()
+            c.points["noise"] = z
+            p.add_constraint(z ** 2 == 1e-4)
+            p.add_constraint(z * x0 == 0)
+            p.add_constraint(z * x == 0)
+            p.set_performance_metric(m + (x + z) ** 2 - x ** 2)
         elif ex == "const_metric":
             p.set_performance_metric(m + 0.5)
         elif ex == "two_metrics":
@@ -362,8 +379,8 @@ def enumerate_specs(tier, family="core"):
             specs.append(dict(base, extras=[ex]))
         if not quick:
             for e1, e2 in itertools.combinations(EXTRAS, 2):
-                if e1.startswith("lmi") and e2.startswith("lmi"):
-                    continue          # both define exprs['e_lmi']
+                if (e1.startswith("lmi") and e2.startswith("lmi")) or (e1.startswith("fn_lmi") and e2.startswith("fn_lmi")):
+                    continue          # both define exprs['e_lmi'] / exprs['e_fn']
                 specs.append(dict(base, extras=[e1, e2]))
             specs.append(dict(base, named=True, fname="func", extras=["named_ineq"]))
     # composites and alternative steps
